@@ -888,6 +888,160 @@ theorem laplace_exact_quadratic_vector (f g : Fld) (vs : List String)
     (by rw [hi.1]; exact ha) (hi.2 a ha)).2
 
 
+/-! ### 4b. … and with ANY mask, at every valid cell whose runs of valid cells are long enough -/
+
+/-- LINE-LEVEL EXACTNESS WITH A MASK: at a valid cell whose own run of valid cells along an open axis
+has at least three cells, if the values ON THAT RUN are a quadratic in the offset from cell `i`,
+the first and second derivative at `i` are `p1` and `p2` — whatever lies outside the run -/
+theorem D_exact_line_masked (f : Fld) (ax c : Nat) (i : List Nat) (p0 p1 p2 : Rat)
+    (hper : periodic f ax = false) (hh : f.mesh.cellAt ax ≠ 0) (hi : i.getD ax 0 < f.mesh.nAt ax)
+    (hv : f.valid.line ax i (i.getD ax 0) = true)
+    (hlen : 3 ≤ runBefore (fun j => f.valid.line ax i j) (i.getD ax 0)
+        + runFrom (fun j => f.valid.line ax i j) (f.mesh.nAt ax) (i.getD ax 0))
+    (hT : ∀ j, i.getD ax 0 - runBefore (fun j => f.valid.line ax i j) (i.getD ax 0) ≤ j →
+        j < i.getD ax 0 + runFrom (fun j => f.valid.line ax i j) (f.mesh.nAt ax) (i.getD ax 0) →
+        (f.data.line ax i j).getD c 0
+        = p0 + p1 * (((j : Rat) - (i.getD ax 0 : Nat)) * f.mesh.cellAt ax)
+          + p2 / 2 * (((j : Rat) - (i.getD ax 0 : Nat)) * f.mesh.cellAt ax) ^ 2) :
+    D f ax 1 c i = p1 ∧ D f ax 2 c i = p2 := by
+  have hb := runBefore_le (fun j => f.valid.line ax i j) (i.getD ax 0)
+  have hpos : 0 < runFrom (fun j => f.valid.line ax i j) (f.mesh.nAt ax) (i.getD ax 0) := by
+    unfold runFrom
+    have : f.mesh.nAt ax - i.getD ax 0 = (f.mesh.nAt ax - i.getD ax 0 - 1) + 1 := by omega
+    rw [this]; simp only [runFromAux, hv, if_true]; omega
+  generalize hrb : runBefore (fun j => f.valid.line ax i j) (i.getD ax 0) = rb at *
+  generalize hrf : runFrom (fun j => f.valid.line ax i j) (f.mesh.nAt ax) (i.getD ax 0) = rf at *
+  have key : ∀ o, D f ax o c i = dAt o (f.mesh.cellAt ax) (rb + rf)
+      (fun k => p0 + p1 * (-(rb : Rat) * f.mesh.cellAt ax + (k : Rat) * f.mesh.cellAt ax)
+        + p2 / 2 * (-(rb : Rat) * f.mesh.cellAt ax + (k : Rat) * f.mesh.cellAt ax) ^ 2) rb := by
+    intro o
+    rw [D_eq_spec f ax o c i hper hi]
+    unfold diffSpec
+    beta_reduce
+    rw [hv, hrb, hrf]
+    simp only [if_true]
+    apply dAt_congr _ _ _ _ _ _ _ (by omega)
+    intro k hk
+    rw [hT (i.getD ax 0 - rb + k) (by omega) (by omega)]
+    have e : ((i.getD ax 0 - rb + k : Nat) : Rat) - ((i.getD ax 0 : Nat) : Rat) = -(rb : Rat) + (k : Rat) := by
+      push_cast [Nat.cast_sub hb]; ring
+    rw [e]; ring
+  constructor
+  · rw [key 1]
+    unfold dAt
+    simp only [if_true]
+    rw [d1_exact p0 p1 (p2 / 2) _ _ hh _ hlen _ (by omega)]
+    ring
+  · rw [key 2]
+    unfold dAt
+    simp only [show ¬ ((2 : Nat) = 1) by omega, if_false]
+    by_cases h4 : 4 ≤ rb + rf
+    · have := d2_exact p0 p1 (p2 / 2) 0 (-(rb : Rat) * f.mesh.cellAt ax) _ hh _ h4 rb (by omega)
+      simp only [zero_mul, add_zero, mul_zero] at this
+      rw [this]; ring
+    · have h3 : rb + rf = 3 := by omega
+      rw [h3, d2_exact_three p0 p1 (p2 / 2) _ _ hh]
+      ring
+
+/-- FIELD-LEVEL EXACTNESS of `diff` WITH A MASK: a component that samples a function which is
+quadratic along axis `ax` is differentiated exactly (first and second derivative) at every valid
+cell whose own run of valid cells along `ax` has at least three cells — any mask otherwise. -/
+theorem D_exact_masked (f : Fld) (ax c : Nat) (i : List Nat) (P P1 P2 : (Nat → Rat) → Rat)
+    (hs : SampledFrom f c P) (hq : QuadAlong P ax P1 P2)
+    (hper : periodic f ax = false) (hh : f.mesh.cellAt ax ≠ 0)
+    (hax : ax < i.length) (hi : i.getD ax 0 < f.mesh.nAt ax)
+    (hv : f.valid.line ax i (i.getD ax 0) = true)
+    (hlen : 3 ≤ runBefore (fun j => f.valid.line ax i j) (i.getD ax 0)
+        + runFrom (fun j => f.valid.line ax i j) (f.mesh.nAt ax) (i.getD ax 0)) :
+    D f ax 1 c i = P1 (coords f i) ∧ D f ax 2 c i = P2 (coords f i) := by
+  apply D_exact_line_masked f ax c i (P (coords f i)) (P1 (coords f i)) (P2 (coords f i)) hper hh hi hv hlen
+  intro j _ _
+  unfold NDA.line
+  rw [hs (setAt i ax j), coords_setAt f i ax j hax, hq]
+
+/-- **Gradient is exact at every cell with long enough runs** of a field with ANY mask: at a valid
+cell whose runs along all axes have at least three cells, component `a` of `grad` is `∂P/∂x_a` -/
+theorem grad_exact_quadratic_masked (f g : Fld) (P : (Nat → Rat) → Rat) (P1 P2 : Nat → (Nat → Rat) → Rat)
+    (hdims : DimsOk f) (hs : SampledFrom f 0 P) (hq : ∀ a, a < f.mesh.ndim → QuadAlong P a (P1 a) (P2 a))
+    (h : grad f = .ok g) (i : List Nat) (hi : InMesh f i) (hm : ExactAt f i) :
+    ∀ a, a < f.mesh.ndim → (g.data.get i).getD a 0 = P1 a (coords f i) := by
+  obtain ⟨_, _, _, _, g5⟩ := grad_eq f g hdims h
+  intro a ha
+  obtain ⟨hp, hh, hv, hl⟩ := hm a ha
+  rw [g5 i a ha]
+  exact (D_exact_masked f a 0 i P (P1 a) (P2 a) hs (hq a ha) hp hh (by rw [hi.1]; exact ha) (hi.2 a ha) hv hl).1
+
+/-- **Divergence is exact at every cell with long enough runs**, any mask -/
+theorem div_exact_quadratic_masked (f g : Fld) (vs : List String) (σ : Nat → Nat)
+    (P : Nat → (Nat → Rat) → Rat) (P1 P2 : Nat → (Nat → Rat) → Rat)
+    (hdims : DimsOk f) (hv : f.vdims = some vs) (hvl : vs.length = f.nvdim) (hvd : hasDup vs = false)
+    (hσ : ∀ c, c < f.nvdim → σ c < f.mesh.ndim ∧
+      Fld.lookup f.vmap (vs.getD c "") = some (f.mesh.region.dims.getD (σ c) ""))
+    (hs : ∀ c, c < f.nvdim → SampledFrom f c (P c) ∧ QuadAlong (P c) (σ c) (P1 c) (P2 c))
+    (h : div f = .ok g) (i : List Nat) (hi : InMesh f i) (hm : ExactAt f i) :
+    (g.data.get i).getD 0 0 = sumTo f.nvdim fun c => P1 c (coords f i) := by
+  obtain ⟨_, _, _, _, g5⟩ := div_eq f g vs σ hdims hv hvl hvd hσ h
+  rw [g5 i]
+  apply sumTo_congr
+  intro c hc
+  obtain ⟨hp, hh, hv', hl⟩ := hm (σ c) (hσ c hc).1
+  exact (D_exact_masked f (σ c) c i (P c) (P1 c) (P2 c) (hs c hc).1 (hs c hc).2 hp hh
+    (by rw [hi.1]; exact (hσ c hc).1) (hi.2 _ (hσ c hc).1) hv' hl).1
+
+/-- **Curl is exact at every cell with long enough runs**, any mask -/
+theorem curl_exact_quadratic_masked (f g : Fld) (vs : List String) (ρ : Nat → Nat)
+    (P : Nat → (Nat → Rat) → Rat) (P1 P2 : Nat → Nat → (Nat → Rat) → Rat)
+    (hdims : DimsOk f) (hv : f.vdims = some vs) (hvl : vs.length = f.nvdim) (hvd : hasDup vs = false)
+    (hρ : ∀ d, d < 3 → ρ d < 3 ∧ rDimLast f (f.mesh.region.dims.getD d "") = some (vs.getD (ρ d) ""))
+    (hs : ∀ c, c < 3 → SampledFrom f c (P c) ∧ ∀ a, a < 3 → QuadAlong (P c) a (P1 c a) (P2 c a))
+    (h : curl f = .ok g) (i : List Nat) (hi : InMesh f i) (hm : ExactAt f i) :
+      (g.data.get i).getD 0 0 = P1 (ρ 2) 1 (coords f i) - P1 (ρ 1) 2 (coords f i) ∧
+      (g.data.get i).getD 1 0 = P1 (ρ 0) 2 (coords f i) - P1 (ρ 2) 0 (coords f i) ∧
+      (g.data.get i).getD 2 0 = P1 (ρ 1) 0 (coords f i) - P1 (ρ 0) 1 (coords f i) := by
+  obtain ⟨_, hnd, _, _, _, g6⟩ := curl_eq f g vs ρ hdims hv hvl hvd hρ h
+  have ex : ∀ c a, c < 3 → a < 3 → D f a 1 c i = P1 c a (coords f i) := by
+    intro c a hc ha
+    obtain ⟨hp, hh, hv', hl⟩ := hm a (by omega)
+    exact (D_exact_masked f a c i (P c) (P1 c a) (P2 c a) (hs c hc).1 ((hs c hc).2 a ha) hp hh
+      (by rw [hi.1]; omega) (hi.2 a (by omega)) hv' hl).1
+  obtain ⟨e0, e1, e2⟩ := g6 i
+  have r0 := (hρ 0 (by omega)).1
+  have r1 := (hρ 1 (by omega)).1
+  have r2 := (hρ 2 (by omega)).1
+  rw [e0, e1, e2, ex _ 1 r2 (by omega), ex _ 2 r1 (by omega), ex _ 2 r0 (by omega), ex _ 0 r2 (by omega),
+    ex _ 0 r1 (by omega), ex _ 1 r0 (by omega)]
+  exact ⟨rfl, rfl, rfl⟩
+
+/-- **Laplacian is exact at every cell with long enough runs** (scalar field), any mask -/
+theorem laplace_exact_quadratic_masked (f g : Fld) (P : (Nat → Rat) → Rat) (P1 P2 : Nat → (Nat → Rat) → Rat)
+    (hdims : DimsOk f) (hn1 : f.nvdim = 1) (hs : SampledFrom f 0 P)
+    (hq : ∀ a, a < f.mesh.ndim → QuadAlong P a (P1 a) (P2 a)) (h : laplace f = .ok g)
+    (i : List Nat) (hi : InMesh f i) (hm : ExactAt f i) :
+    (g.data.get i).getD 0 0 = sumTo f.mesh.ndim fun a => P2 a (coords f i) := by
+  obtain ⟨_, _, _, g5⟩ := laplace_eq_scalar f g hdims hn1 h
+  rw [g5 i]
+  apply sumTo_congr
+  intro a ha
+  obtain ⟨hp, hh, hv, hl⟩ := hm a ha
+  exact (D_exact_masked f a 0 i P (P1 a) (P2 a) hs (hq a ha) hp hh (by rw [hi.1]; exact ha) (hi.2 a ha) hv hl).2
+
+/-- **Laplacian is exact at every cell with long enough runs** (vector field), any mask -/
+theorem laplace_exact_quadratic_vector_masked (f g : Fld) (vs : List String)
+    (P : Nat → (Nat → Rat) → Rat) (P1 P2 : Nat → Nat → (Nat → Rat) → Rat)
+    (hdims : DimsOk f) (hn : f.nvdim ≠ 1) (hv : f.vdims = some vs) (hvl : vs.length = f.nvdim)
+    (hvd : hasDup vs = false)
+    (hs : ∀ c, c < f.nvdim → SampledFrom f c (P c) ∧ ∀ a, a < f.mesh.ndim → QuadAlong (P c) a (P1 c a) (P2 c a))
+    (h : laplace f = .ok g) (i : List Nat) (hi : InMesh f i) (hm : ExactAt f i) :
+    ∀ c, c < f.nvdim → (g.data.get i).getD c 0 = sumTo f.mesh.ndim fun a => P2 c a (coords f i) := by
+  obtain ⟨_, _, _, g5⟩ := laplace_eq_vector f g vs hdims hn hv hvl hvd h
+  intro c hc
+  rw [g5 i c hc]
+  apply sumTo_congr
+  intro a ha
+  obtain ⟨hp, hh, hv', hl⟩ := hm a ha
+  exact (D_exact_masked f a c i (P c) (P1 c a) (P2 c a) (hs c hc).1 ((hs c hc).2 a ha) hp hh
+    (by rw [hi.1]; exact ha) (hi.2 a ha) hv' hl).2
+
 /-! ## 5. Derivatives along different axes commute; curl grad = 0, div curl = 0 -/
 
 /-- **Derivatives along different axes commute** on a fully valid mesh (any orders 1/2,
@@ -2673,5 +2827,19 @@ example : ∃ R L LR RL, rot90FldK exVM (exVM.mesh.region.dims.getD 0 "") (exVM.
     ∀ i, InMesh R i → ∀ c, c < exVM.nvdim → (LR.data.get i).getD c 0 = (RL.data.get i).getD c 0 :=
   laplace_rot90_vector_all_k exVM 0 1 1 2 5 ["p", "q", "r"] exVM_wf (exVM_tw 0 1) rfl rfl (by decide) (by decide) (by decide)
     (by decide) rfl rfl (by decide) (by decide) (by decide) (fun _ => rfl) (by decide) (by decide) (by decide) (by decide) (by decide)
+
+/-- `ExactAt` is not vacuous: in the masked open field `exSO` (cell (3,2,4) invalid) the cell (1,1,3) is
+valid and its runs along the three axes have 4, 3 and 5 cells -/
+example : exSO.valid.get [3, 2, 4] = false ∧ ExactAt exSO [1, 1, 3] := by
+  refine ⟨by decide, ?_⟩
+  intro a ha
+  have : a = 0 ∨ a = 1 ∨ a = 2 := by unfold Mesh.ndim Region.ndim exSO exS exMesh at ha; simp at ha; omega
+  rcases this with rfl | rfl | rfl
+  · refine ⟨by decide, ?_, by decide, by decide⟩
+    simp [Mesh.cellAt, Mesh.nAt, exSO, exS, exMesh, Region.edge, Region.hi, Region.lo]
+  · refine ⟨by decide, ?_, by decide, by decide⟩
+    simp [Mesh.cellAt, Mesh.nAt, exSO, exS, exMesh, Region.edge, Region.hi, Region.lo]
+  · refine ⟨by decide, ?_, by decide, by decide⟩
+    simp [Mesh.cellAt, Mesh.nAt, exSO, exS, exMesh, Region.edge, Region.hi, Region.lo]
 
 end DFV.C05
